@@ -1,12 +1,15 @@
 CONSTANTS
   Dev = {}
-  RD = 1
-  MaxRetries = 1
+  TickMs = 100000
+  Confs = {}
   MaxDgrams = 0
   Faults = {}
-  MRT = 3
   MReqs = {1, 2}
   MaxConn = 3
+  MsConfs <- GMsConfs
+  XConfs <- GXConfs
+  OpNames <- AllOps
+  TcOnly = FALSE
   Mode = "multi"
   MaxOps = 10
   PathMode = FALSE
